@@ -439,6 +439,7 @@ package apd
 //@   ensures [infovf] old(finwfI(c, x)) && old(x.Exponent) + nd10(old(val(x.Coeff))) - 1 > c.MaxExponent ==> hassys(ret) || (d.Form == Infinite && d.Negative == old(x.Negative) && only(ret, Rounded | Inexact | Overflow | Clamped))
 //@   ensures [fits] old(finwf(c, x)) && r == c.Rounding && !hassys(ret) ==> fits(c, d)
 //@   ensures [formkeep] d.Form == Finite ==> old(x.Form) == Finite
+//@   ensures [shape] d.Negative == old(x.Negative) && (d.Form == old(x.Form) || d.Form == Infinite)
 //@   ensures [zero] old(finwf(c, x)) && r == c.Rounding && old(val(x.Coeff)) == 0 ==> RZero(c, old(x.Negative), old(x.Exponent), d, ret)
 //@   ensures [sub] old(finwf(c, x)) && r == c.Rounding && old(val(x.Coeff)) != 0 && old(x.Exponent) + nd10(old(val(x.Coeff))) - 1 < c.MinExponent ==> RSub(c, old(x.Negative), old(val(x.Coeff)), old(x.Exponent), d, ret)
 //@   ensures [sys] old(finwf(c, x)) && r == c.Rounding && old(val(x.Coeff)) != 0 && old(x.Exponent) + nd10(old(val(x.Coeff))) - 1 >= c.MinExponent ==> (has(ret, SystemOverflow) <==> NSYS(c, old(x.Negative), old(val(x.Coeff)), old(x.Exponent))) && !has(ret, SystemUnderflow)
@@ -490,6 +491,7 @@ package apd
 //@   ensures [inv] inv(d) && closed(ret)
 //@   ensures [rounded] wfctx(c) && old(x.Form) == Finite ==> Rounded(c, old(x.Negative), old(val(x.Coeff)), old(x.Exponent), d, ret)
 //@   ensures [fits] wfctx(c) && !hassys(ret) ==> fits(c, d)
+//@   ensures [shape] d.Negative == old(x.Negative) && (d.Form == old(x.Form) || d.Form == Infinite)
 //@   ensures [sysiff] wfctx(c) && old(x.Form) == Finite ==> SysIff(c, old(x.Negative), old(val(x.Coeff)), old(x.Exponent), ret)
 //@   ensures [esys] old(x.Exponent) < -100000 || old(x.Exponent) > 100000 ==> hassys(ret)
 //@   ensures [infovf] old(finwfI(c, x)) && old(x.Exponent) + nd10(old(val(x.Coeff))) - 1 > c.MaxExponent ==> hassys(ret) || (d.Form == Infinite && d.Negative == old(x.Negative) && only(ret, Rounded | Inexact | Overflow | Clamped))
@@ -1096,6 +1098,7 @@ package apd
 //@   ensures [zero] old(iszero(x)) ==> (ret0 && d.Form == Infinite && d.Negative && ret1 == 0)
 //@   ensures [unchanged] !ret0 ==> (unchanged(d) && ret1 == 0 && ret2 == nil && old(x.Form == Finite && !x.Negative && val(x.Coeff) > 0))
 //@   ensures [inv] ret0 ==> inv(d)
+//@   ensures [fits] wfctx(c) && ret0 ==> fits(c, d)
 
 //@ func (*Context).Sqrt
 //@   props C03 C04 C05 C06 C07 C08 C18
@@ -1176,3 +1179,97 @@ package apd
 //@   ensures [neg] old(!isnan(x) && x.Negative && !iszero(x)) ==> (d.Form == NaN && ret0 == InvalidOperation)
 //@   ensures [inf] old(x.Form == Infinite && !x.Negative) ==> (d.Form == Infinite && !d.Negative && ret0 == 0)
 //@   ensures [zero] old(iszero(x)) ==> (d.Form == Infinite && d.Negative && ret0 == 0)
+
+//@ func (*Context).Log10
+//@   props C03 C04 C05 C06 C07 C08 C18
+//@   exported
+//@   requires writable(d) && inv(x)
+//@   assigns d
+//@   ensures [invkeep] old(inv(d)) ==> inv(d)
+//@   ensures [closed] closed(ret0)
+//@   ensures [trap] trapped(c, ret0) ==> ret1 != nil
+//@   ensures [nan] NaN1(x, d, ret0)
+//@   ensures [neg] old(!isnan(x) && x.Negative && !iszero(x)) ==> (d.Form == NaN && ret0 == InvalidOperation)
+//@   ensures [inf] old(x.Form == Infinite && !x.Negative) ==> (d.Form == Infinite && !d.Negative && ret0 == 0)
+//@   ensures [zero] old(iszero(x)) ==> (d.Form == Infinite && d.Negative && ret0 == 0)
+//@   ensures [fits] wfctx(c) && ret1 == nil && !hassys(ret0) ==> fits(c, d)
+
+// ---------------------------------------------------------------- Quantize, RoundToIntegral, Ceil, Floor (C09)
+
+//@ func (*Context).quantize
+//@   props C02 C04 C06 C09 C20
+//@   requires writable(d) && inv(v)
+//@   assigns d
+//@   ensures [inv] inv(d) && closed(ret) && (d.Form == old(v.Form) || d.Form == Infinite) && d.Negative == old(v.Negative)
+//@   ensures [up] old(inrange(v)) && -100000 <= exp && exp <= 100000 && exp <= old(v.Exponent) && old(v.Exponent) - exp <= 100000 ==> (val(d.Coeff) == old(val(v.Coeff)) * pow10(old(v.Exponent) - exp) && d.Exponent == exp && ret == 0)
+
+//@ func (*Context).toIntegral
+//@   props C02 C04 C06 C09
+//@   requires writable(d) && inv(x)
+//@   assigns d
+//@   ensures [inv] inv(d) && closed(ret) && (d.Form == old(x.Form) || d.Form == Infinite) && d.Negative == old(x.Negative)
+
+//@ func (*Context).toIntegralSpecials
+//@   props C03 C04 C06 C08 C09
+//@   requires writable(d) && inv(x)
+//@   assigns d
+//@   ensures [invkeep] old(inv(d)) ==> inv(d)
+//@   ensures [closed] closed(ret1)
+//@   ensures [trap] ret2 != nil <==> trapped(c, ret1)
+//@   ensures [set] ret0 <==> old(x.Form) != Finite
+//@   ensures [nan] NaN1(x, d, ret1)
+//@   ensures [inf] Inf1(x, old(x.Negative), d, ret1)
+//@   ensures [unchanged] !ret0 ==> (unchanged(d) && ret1 == 0 && ret2 == nil)
+
+//@ func (*Context).RoundToIntegralValue
+//@   props C02 C03 C04 C05 C06 C08 C09
+//@   exported
+//@   requires writable(d) && inv(x)
+//@   assigns d
+//@   ensures [invkeep] old(inv(d)) ==> inv(d)
+//@   ensures [closed] closed(ret0) && none(ret0, Inexact | Rounded)
+//@   ensures [trap] ret1 != nil <==> trapped(c, ret0)
+//@   ensures [nan] NaN1(x, d, ret0)
+//@   ensures [inf] Inf1(x, old(x.Negative), d, ret0)
+
+//@ func (*Context).RoundToIntegralExact
+//@   props C02 C03 C04 C05 C06 C08 C09
+//@   exported
+//@   requires writable(d) && inv(x)
+//@   assigns d
+//@   ensures [invkeep] old(inv(d)) ==> inv(d)
+//@   ensures [closed] closed(ret0)
+//@   ensures [trap] ret1 != nil <==> trapped(c, ret0)
+//@   ensures [nan] NaN1(x, d, ret0)
+//@   ensures [inf] Inf1(x, old(x.Negative), d, ret0)
+
+//@ func (*Context).Quantize
+//@   props C02 C03 C04 C05 C06 C07 C08 C09
+//@   exported
+//@   requires writable(d) && inv(x)
+//@   assigns d
+//@   ensures [invkeep] old(inv(d)) ==> inv(d)
+//@   ensures [closed] closed(ret0) && none(ret0, Overflow | Underflow)
+//@   ensures [trap] ret1 != nil <==> trapped(c, ret0)
+//@   ensures [nan] NaN1(x, d, ret0)
+//@   ensures [inf] old(x.Form) == Infinite ==> (d.Form == NaN && ret0 == InvalidOperation)
+
+//@ func (*Context).Ceil
+//@   props C03 C04 C05 C06 C08 C09
+//@   exported
+//@   requires writable(d) && inv(x)
+//@   assigns d
+//@   ensures [invkeep] old(inv(d)) ==> inv(d)
+//@   ensures [closed] closed(ret0)
+//@   ensures [nan] NaN1(x, d, ret0)
+//@   ensures [inf] Inf1(x, old(x.Negative), d, ret0)
+
+//@ func (*Context).Floor
+//@   props C03 C04 C05 C06 C08 C09
+//@   exported
+//@   requires writable(d) && inv(x)
+//@   assigns d
+//@   ensures [invkeep] old(inv(d)) ==> inv(d)
+//@   ensures [closed] closed(ret0)
+//@   ensures [nan] NaN1(x, d, ret0)
+//@   ensures [inf] Inf1(x, old(x.Negative), d, ret0)
